@@ -25,13 +25,14 @@ SetOf(s) == {s[i] : i \in DOMAIN s}
 VARIABLES ls, disk, l, bad
 
 D == INSTANCE Dhcp6 WITH Macs <- SetOf(Hdr.macs), Pool <- SetOf(Hdr.pool), Outs <- SetOf(Hdr.outs),
-                         GW <- 1000000, Far <- 1000001, ReqHosts <- {""},
-                         StaticHosts <- SetOf(Hdr.stathosts), MaxStatic <- 1000000
+                         GW <- 1000000, Far <- 1000001, ReqHosts <- {""}, BadHosts <- {},
+                         StaticHosts <- SetOf(Hdr.stathosts), MaxStatic <- 1000000, LeaseT <- 1
 
-\* <<mac, ip, 2*static + acknowledged, host>> as the harness writes leases.
-Dec(t)   == D!Lease(t[1], t[2], t[3] >= 2, t[3] % 2 = 1, t[4])
+\* <<mac, ip, -1 for a reservation else 1 = acknowledged and unexpired / 0,
+\* host>> as the harness writes leases (Dhcp4's EncL with LeaseT = 1).
+Dec(t)   == D!Lease(t[1], t[2], t[3] = -1, t[3] = 1, t[4])
 DecS(s)  == {Dec(s[i]) : i \in DOMAIN s}
-Once(s)  == Cardinality(DecS(s)) = Len(s) /\ \A i \in DOMAIN s : s[i][3] \in {0, 1, 3}
+Once(s)  == Cardinality(DecS(s)) = Len(s) /\ \A i \in DOMAIN s : s[i][3] \in {-1, 0, 1}
 
 Outcomes(S, Dk, a) ==
     CASE a.act = "Solicit"      -> D!Solicit6Out(S, a.m)
